@@ -15,10 +15,10 @@ import (
 )
 
 func init() {
-	register(&Rule{ID: "R2", Title: "reply-obligation: every request taken from a mailbox is answered, parked, delegated or reported on every path", Min: 11, Run: ruleR2})
-	register(&Rule{ID: "R3", Title: "reply-once: at most one answer per request; exactly one action per parked token when a join releases", Min: 13, Run: ruleR3})
-	register(&Rule{ID: "R4", Title: "reply-cap: reply channels never need a receiver (capacity >= 1)", Min: 12, Run: ruleR4})
-	register(&Rule{ID: "R5", Title: "mailbox-agreement: every message type posted into a mailbox has a case in its owner's loop", Min: 12, Run: ruleR5})
+	register(&Rule{ID: "R2", Title: "reply-obligation: every request taken from a mailbox is answered, parked, delegated or reported on every path", Min: 8, Run: ruleR2})
+	register(&Rule{ID: "R3", Title: "reply-once: at most one answer per request; exactly one action per parked token when a join releases", Min: 9, Run: ruleR3})
+	register(&Rule{ID: "R4", Title: "reply-cap: reply channels never need a receiver (capacity >= 1)", Min: 8, Run: ruleR4})
+	register(&Rule{ID: "R5", Title: "mailbox-agreement: every message type posted into a mailbox has a case in its owner's loop", Min: 9, Run: ruleR5})
 	register(&Rule{ID: "R6", Title: "exhaustive: the token interprets every IAction type; enum switches cover every constant", Min: 2, Run: ruleR6})
 }
 
@@ -76,11 +76,91 @@ func hasMethod(n *types.Named, name string) bool {
 // given interface type predicate.
 type tsClause struct {
 	Func   *FuncInfo
-	Switch *ast.TypeSwitchStmt
-	Clause *ast.CaseClause
+	Switch *ast.TypeSwitchStmt // nil for the type-assertion forms
+	Clause *ast.CaseClause     // nil for the type-assertion forms
+	At     ast.Node            // node used for positions
+	Body   []ast.Stmt          // the statements that handle a value of the asserted type
 	Types  []types.Type
-	Var    *types.Var // implicit clause variable (nil if none)
+	Var    *types.Var // variable holding the typed value (nil if none)
 	TagX   ast.Expr
+}
+
+// msgHandlers = clauses of type switches plus the two type-assertion idioms
+//
+//	m, ok := x.(T); if !ok { continue|return|break }; <body until the end of the block>
+//	if m, ok := x.(T); ok { <body> }
+func msgHandlers(p *Prog, tagPred func(types.Type) bool) []tsClause {
+	out := typeSwitches(p, tagPred)
+	for _, f := range p.Funcs {
+		in := info(f)
+		inspectNoLit(f.Body, func(m ast.Node) bool {
+			switch x := m.(type) {
+			case *ast.IfStmt:
+				as, ok := x.Init.(*ast.AssignStmt)
+				if !ok || len(as.Lhs) != 2 || len(as.Rhs) != 1 {
+					return true
+				}
+				ta, ok := unparen(as.Rhs[0]).(*ast.TypeAssertExpr)
+				if !ok || ta.Type == nil || !tagPred(in.TypeOf(ta.X)) {
+					return true
+				}
+				okId, _ := as.Lhs[1].(*ast.Ident)
+				cid, _ := unparen(x.Cond).(*ast.Ident)
+				if okId == nil || cid == nil || objOf(in, cid) != objOf(in, okId) {
+					return true
+				}
+				v, _ := objOf(in, as.Lhs[0]).(*types.Var)
+				out = append(out, tsClause{Func: f, At: x, Body: x.Body.List, Types: []types.Type{in.TypeOf(ta.Type)}, Var: v, TagX: ta.X})
+			case *ast.BlockStmt, *ast.CommClause, *ast.CaseClause:
+				var list []ast.Stmt
+				switch y := x.(type) {
+				case *ast.BlockStmt:
+					list = y.List
+				case *ast.CommClause:
+					list = y.Body
+				case *ast.CaseClause:
+					list = y.Body
+				}
+				for i := 0; i+1 < len(list); i++ {
+					as, ok := list[i].(*ast.AssignStmt)
+					if !ok || len(as.Lhs) != 2 || len(as.Rhs) != 1 {
+						continue
+					}
+					ta, ok := unparen(as.Rhs[0]).(*ast.TypeAssertExpr)
+					if !ok || ta.Type == nil || !tagPred(in.TypeOf(ta.X)) {
+						continue
+					}
+					guard, ok := list[i+1].(*ast.IfStmt)
+					if !ok || guard.Else != nil {
+						continue
+					}
+					u, ok := unparen(guard.Cond).(*ast.UnaryExpr)
+					okId, _ := as.Lhs[1].(*ast.Ident)
+					if !ok || u.Op != token.NOT || okId == nil {
+						continue
+					}
+					cid, _ := unparen(u.X).(*ast.Ident)
+					if cid == nil || objOf(in, cid) != objOf(in, okId) {
+						continue
+					}
+					leaves := false
+					for _, st := range guard.Body.List {
+						switch st.(type) {
+						case *ast.BranchStmt, *ast.ReturnStmt:
+							leaves = true
+						}
+					}
+					if !leaves {
+						continue
+					}
+					v, _ := objOf(in, as.Lhs[0]).(*types.Var)
+					out = append(out, tsClause{Func: f, At: as, Body: list[i+2:], Types: []types.Type{in.TypeOf(ta.Type)}, Var: v, TagX: ta.X})
+				}
+			}
+			return true
+		})
+	}
+	return out
 }
 
 func typeSwitches(p *Prog, tagPred func(types.Type) bool) []tsClause {
@@ -108,7 +188,7 @@ func typeSwitches(p *Prog, tagPred func(types.Type) bool) []tsClause {
 			}
 			for _, s := range ts.Body.List {
 				cc := s.(*ast.CaseClause)
-				c := tsClause{Func: f, Switch: ts, Clause: cc, TagX: x}
+				c := tsClause{Func: f, Switch: ts, Clause: cc, At: cc, Body: cc.Body, TagX: x}
 				for _, e := range cc.List {
 					c.Types = append(c.Types, in.TypeOf(e))
 				}
@@ -126,6 +206,15 @@ func typeSwitches(p *Prog, tagPred func(types.Type) bool) []tsClause {
 // mentionsField: expression e mentions <v>.<field> (v the clause variable).
 func mentionsSel(in *types.Info, n ast.Node, v *types.Var, field *types.Var) bool {
 	found := false
+	if field == nil {
+		inspectNoLit(n, func(m ast.Node) bool {
+			if id, ok := m.(*ast.Ident); ok && in.Uses[id] == types.Object(v) {
+				found = true
+			}
+			return !found
+		})
+		return found
+	}
 	inspectNoLit(n, func(m ast.Node) bool {
 		if sel, ok := m.(*ast.SelectorExpr); ok {
 			if fieldOf(in, sel) == field {
@@ -255,10 +344,19 @@ func replyOutcome(p *Prog, f *FuncInfo, n ast.Node, v *types.Var, field *types.V
 				return false, "delegated goroutine can finish without replying: " + witnessLines(g, bad)
 			}
 		}
+		if ok, how := delegatedToFunc(p, f, s.Call, v, field, depth, true); ok || how != "" {
+			return ok, how
+		}
 		return false, ""
 	}
 	if isErrorTraceSend(in, n) {
 		return true, "error trace"
+	}
+	// synchronous helper that receives the request (or its reply channel) and discharges it on every path
+	for _, call := range callsIn(n) {
+		if ok, how := delegatedToFunc(p, f, call, v, field, depth, false); ok {
+			return true, how
+		}
 	}
 	// store: the reply channel is mentioned in an assignment RHS, an append or a composite literal
 	stored := false
@@ -287,13 +385,66 @@ func replyOutcome(p *Prog, f *FuncInfo, n ast.Node, v *types.Var, field *types.V
 	return false, ""
 }
 
+// delegatedToFunc: call passes the request variable (or its reply channel) to a declared function of
+// the same package whose every path replies / parks / reports (or, for a goroutine, is cancelled).
+func delegatedToFunc(p *Prog, f *FuncInfo, call *ast.CallExpr, v *types.Var, field *types.Var, depth int, isGo bool) (bool, string) {
+	if depth >= 2 {
+		return false, ""
+	}
+	in := info(f)
+	fn := callee(in, call)
+	cf := p.byObj[fn]
+	if cf == nil || cf.Pkg != f.Pkg {
+		return false, ""
+	}
+	if _, isIface := recvUnderlyingInterface(fn); isIface {
+		return false, ""
+	}
+	for i, a := range call.Args {
+		var pf *types.Var // field to use inside the callee (nil: the parameter is the channel itself)
+		passes := false
+		if id, ok := unparen(a).(*ast.Ident); ok && in.Uses[id] == types.Object(v) {
+			passes, pf = true, field
+		} else if field != nil {
+			if sel, ok := unparen(a).(*ast.SelectorExpr); ok && fieldOf(in, sel) == field {
+				if id, ok := unparen(sel.X).(*ast.Ident); ok && in.Uses[id] == types.Object(v) {
+					passes, pf = true, nil
+				}
+			}
+		}
+		if !passes {
+			continue
+		}
+		pv := paramAt(cf, i)
+		if pv == nil {
+			continue
+		}
+		g := p.Graph(cf)
+		bad := g.MustPassBeforeExit(g.Entry(), true, func(m ast.Node) bool {
+			if ok, _ := replyOutcome(p, cf, m, pv, pf, depth+1); ok {
+				return true
+			}
+			return isGo && isDoneComm(p, cf, m)
+		})
+		kind := "helper"
+		if isGo {
+			kind = "goroutine"
+		}
+		if len(bad) == 0 {
+			return true, "delegated to " + kind + " " + cf.QName() + " which replies, parks, reports or is cancelled on every path"
+		}
+		return false, "delegated " + kind + " " + cf.QName() + " can finish without replying: " + witnessLines(g, bad)
+	}
+	return false, ""
+}
+
 func ruleR2(c *Ctx) {
 	p := c.P
 	mts := replyMessageTypes(p)
 	if len(mts) < 3 {
 		c.Missing("message types", fmt.Sprintf("expected >= 3 request message types with a reply channel, found %d", len(mts)))
 	}
-	for _, cl := range typeSwitches(p, isIMessage) {
+	for _, cl := range msgHandlers(p, isIMessage) {
 		if cl.Var == nil || len(cl.Types) != 1 {
 			continue
 		}
@@ -309,12 +460,12 @@ func ruleR2(c *Ctx) {
 		f := cl.Func
 		g := p.Graph(f)
 		desc := "case " + mt.Named.Obj().Name()
-		entry, ok := g.EntryOfStmts(cl.Clause.Body)
+		entry, ok := g.EntryOfStmts(cl.Body)
 		if !ok {
-			c.Bad(f, cl.Clause, desc, "request clause must answer, park, delegate or report the request", "empty clause: the request is dropped")
+			c.Bad(f, cl.At, desc, "request clause must answer, park, delegate or report the request", "empty clause: the request is dropped")
 			continue
 		}
-		region := regionOfStmts(cl.Clause.Body)
+		region := regionOfStmts(cl.Body)
 		var why []string
 		seenWhy := map[string]bool{}
 		var delegFail string
@@ -337,7 +488,7 @@ func ruleR2(c *Ctx) {
 				wit += "; " + delegFail
 			}
 		}
-		c.Check(len(bad) == 0, f, cl.Clause, desc, "every path through the "+mt.Named.Obj().Name()+" clause of "+f.QName()+" must answer the request, park its reply channel, delegate it to a goroutine that does, or emit an ErrorTrace (otherwise the token parked on that channel is lost)", wit)
+		c.Check(len(bad) == 0, f, cl.At, desc, "every path through the "+mt.Named.Obj().Name()+" clause of "+f.QName()+" must answer the request, park its reply channel, delegate it to a goroutine that does, or emit an ErrorTrace (otherwise the token parked on that channel is lost)", wit)
 	}
 }
 
@@ -347,7 +498,7 @@ func ruleR3(c *Ctx) {
 	p := c.P
 	mts := replyMessageTypes(p)
 	// (a) at most one send on the request's reply channel per path through a clause
-	for _, cl := range typeSwitches(p, isIMessage) {
+	for _, cl := range msgHandlers(p, isIMessage) {
 		if cl.Var == nil || len(cl.Types) != 1 {
 			continue
 		}
@@ -363,7 +514,7 @@ func ruleR3(c *Ctx) {
 		f := cl.Func
 		in := info(f)
 		g := p.Graph(f)
-		region := regionOfStmts(cl.Clause.Body)
+		region := regionOfStmts(cl.Body)
 		isReply := func(n ast.Node) bool {
 			s, ok := n.(*ast.SendStmt)
 			return ok && mentionsSel(in, s.Chan, cl.Var, mt.Field)
@@ -388,75 +539,159 @@ func ruleR3(c *Ctx) {
 				double = witnessLines(g, [][]Point{w})
 			}
 		}
-		c.Check(double == "", f, cl.Clause, "case "+mt.Named.Obj().Name()+" replies at most once",
+		c.Check(double == "", f, cl.At, "case "+mt.Named.Obj().Name()+" replies at most once",
 			"no path through the clause sends twice on the request's reply channel", ifEmpty(double, fmt.Sprintf("%d reply sites, pairwise on exclusive paths", len(sends))))
 	}
 	// (b) loops that hand actions to parked tokens: exactly one send per channel per iteration
 	n := 0
-	for _, f := range p.Funcs {
+	for _, pl := range parkedLoops(p) {
+		f := pl.F
 		in := info(f)
 		g := p.Graph(f)
-		inspectNoLit(f.Body, func(m ast.Node) bool {
-			rs, ok := m.(*ast.RangeStmt)
-			if !ok || rs.Value == nil {
-				return true
-			}
-			sl, ok := in.TypeOf(rs.X).Underlying().(*types.Slice)
-			if !ok || !isReplyChan(sl.Elem()) {
-				return true
-			}
-			lv, _ := objOf(in, rs.Value).(*types.Var)
-			if lv == nil {
-				return true
-			}
-			n++
-			region := regionOf(rs.Body)
-			isSend := func(x ast.Node) bool {
-				s, ok := x.(*ast.SendStmt)
-				if !ok {
-					return false
-				}
-				id, ok := unparen(s.Chan).(*ast.Ident)
-				return ok && in.Uses[id] == types.Object(lv)
-			}
-			entry, ok := g.EntryOfStmts(rs.Body.List)
-			desc := "range over parked reply channels (" + typeDesc(in, rs.X) + ")"
-			if !ok {
-				c.Bad(f, rs, desc, "each parked token must receive exactly one action", "empty loop body")
-				return true
-			}
-			bad := g.RegionPaths(entry, region, isSend)
-			msg := ""
-			if len(bad) > 0 {
-				msg = "iteration path without a send (that token stays parked forever): " + witnessLines(g, bad)
-			}
-			cnt := 0
-			for _, pt := range g.AllPoints() {
-				if x := pt.Node(); region.Contains(x) && isSend(x) {
-					cnt++
-					if found, w := g.SearchB(pt, false, func(q Point, y ast.Node) Action {
-						if y == nil || !region.Contains(y) {
-							return Prune
-						}
-						if isSend(y) {
-							return Found
-						}
-						return Continue
-					}, g.WithinRegion(region)); found {
-						msg += " two sends on one iteration path: " + witnessLines(g, [][]Point{w})
+		n++
+		region := regionOf(pl.Body)
+		isSend := pl.send
+		entry, ok := g.EntryOfStmts(pl.Body.List)
+		desc := "loop over parked reply channels (" + typeDesc(in, pl.Slice) + ")"
+		if !ok {
+			c.Bad(f, pl.Loop, desc, "each parked token must receive exactly one action", "empty loop body")
+			continue
+		}
+		bad := g.RegionPaths(entry, region, isSend)
+		msg := ""
+		if len(bad) > 0 {
+			msg = "iteration path without a send (that token stays parked forever): " + witnessLines(g, bad)
+		}
+		cnt := 0
+		for _, pt := range g.AllPoints() {
+			if x := pt.Node(); region.Contains(x) && isSend(x) {
+				cnt++
+				if found, w := g.SearchB(pt, false, func(q Point, y ast.Node) Action {
+					if y == nil || !region.Contains(y) {
+						return Prune
 					}
+					if isSend(y) {
+						return Found
+					}
+					return Continue
+				}, g.WithinRegion(region)); found {
+					msg += " two sends on one iteration path: " + witnessLines(g, [][]Point{w})
 				}
 			}
-			c.Check(msg == "", f, rs, desc, "every iteration over the parked reply channels sends exactly one action on the channel (no token lost, none answered twice)",
-				ifEmpty(msg, fmt.Sprintf("%d send sites in the loop body, exactly one on every path of an iteration", cnt)))
-			return true
-		})
+		}
+		c.Check(msg == "", f, pl.Loop, desc, "every iteration over the parked reply channels sends exactly one action on the channel (no token lost, none answered twice)",
+			ifEmpty(msg, fmt.Sprintf("%d send sites in the loop body, exactly one on every path of an iteration", cnt)))
 	}
 	if n < 2 {
 		c.Missing("parked-channel loops", fmt.Sprintf("expected >= 2 loops over parked reply channels (distributeFlows, catch event release), found %d", n))
 	}
 	// (c) join state reset: see ruleR3reset
 	ruleR3reset(c)
+}
+
+
+// parkedLoop: a loop that hands actions to parked tokens. The element channel is the range value of
+// a []chan IAction, a local assigned from an index into such a slice, or the index expression itself.
+type parkedLoop struct {
+	F     *FuncInfo
+	Loop  ast.Stmt
+	Body  *ast.BlockStmt
+	Slice ast.Expr
+	send  func(ast.Node) bool
+}
+
+func isParkedSlice(in *types.Info, e ast.Expr) bool {
+	t := in.TypeOf(e)
+	if t == nil {
+		return false
+	}
+	sl, ok := t.Underlying().(*types.Slice)
+	return ok && isReplyChan(sl.Elem())
+}
+
+func parkedLoops(p *Prog) []parkedLoop {
+	var out []parkedLoop
+	for _, f := range p.Funcs {
+		in := info(f)
+		inspectNoLit(f.Body, func(m ast.Node) bool {
+			var body *ast.BlockStmt
+			var loop ast.Stmt
+			elems := map[types.Object]bool{}
+			var slice ast.Expr
+			switch x := m.(type) {
+			case *ast.RangeStmt:
+				body, loop = x.Body, x
+				if x.Value != nil && isParkedSlice(in, x.X) {
+					if o := objOf(in, x.Value); o != nil {
+						elems[o] = true
+						slice = x.X
+					}
+				}
+			case *ast.ForStmt:
+				body, loop = x.Body, x
+			default:
+				return true
+			}
+			// locals assigned from an index into a parked slice, directly in this loop's body
+			for _, st := range body.List {
+				if as, ok := st.(*ast.AssignStmt); ok && len(as.Lhs) == 1 && len(as.Rhs) == 1 {
+					if ix, ok := unparen(as.Rhs[0]).(*ast.IndexExpr); ok && isParkedSlice(in, ix.X) {
+						if o := objOf(in, as.Lhs[0]); o != nil {
+							elems[o] = true
+							slice = ix.X
+						}
+					}
+				}
+			}
+			isSend := func(n ast.Node) bool {
+				s, ok := n.(*ast.SendStmt)
+				if !ok {
+					return false
+				}
+				if id, ok := unparen(s.Chan).(*ast.Ident); ok && elems[objOf(in, id)] {
+					return true
+				}
+				if ix, ok := unparen(s.Chan).(*ast.IndexExpr); ok && isParkedSlice(in, ix.X) {
+					return true
+				}
+				return false
+			}
+			has := false
+			inspectNoLit(body, func(z ast.Node) bool {
+				if isSend(z) {
+					has = true
+					if slice == nil {
+						if ix, ok := unparen(z.(*ast.SendStmt).Chan).(*ast.IndexExpr); ok {
+							slice = ix.X
+						}
+					}
+				}
+				return true
+			})
+			// only the innermost loop that directly carries the sends counts
+			if has && slice != nil {
+				out = append(out, parkedLoop{f, loop, body, slice, isSend})
+			}
+			return true
+		})
+	}
+	return out
+}
+
+// distributorFuncs: declared functions with a parked loop over one of their parameters.
+func distributorFuncs(p *Prog) map[*types.Func]bool {
+	out := map[*types.Func]bool{}
+	for _, pl := range parkedLoops(p) {
+		if pl.F.Obj == nil {
+			continue
+		}
+		if id := rootIdent(pl.Slice); id != nil {
+			if v, ok := objOf(info(pl.F), id).(*types.Var); ok && isParam(pl.F, v) {
+				out[pl.F.Obj] = true
+			}
+		}
+	}
+	return out
 }
 
 // ruleR3reset: accumulating join state written in the request clause is
@@ -466,24 +701,10 @@ func ruleR3reset(c *Ctx) {
 	// release sites: calls of a function that ranges over parked reply channels
 	// (distributeFlows) with a receiver field argument or a local copy of one,
 	// and range loops over a receiver field of parked channels.
-	distributors := map[*types.Func]bool{}
-	for _, f := range p.Funcs {
-		if f.Obj == nil {
-			continue
-		}
-		in := info(f)
-		inspectNoLit(f.Body, func(m ast.Node) bool {
-			if rs, ok := m.(*ast.RangeStmt); ok {
-				if sl, ok := in.TypeOf(rs.X).Underlying().(*types.Slice); ok && isReplyChan(sl.Elem()) {
-					if id, ok := unparen(rs.X).(*ast.Ident); ok {
-						if v, ok := objOf(in, id).(*types.Var); ok && isParam(f, v) {
-							distributors[f.Obj] = true
-						}
-					}
-				}
-			}
-			return true
-		})
+	distributors := distributorFuncs(p)
+	loopOf := map[ast.Stmt]parkedLoop{}
+	for _, pl := range parkedLoops(p) {
+		loopOf[pl.Loop] = pl
 	}
 	for _, f := range p.Funcs {
 		in := info(f)
@@ -496,11 +717,9 @@ func ruleR3reset(c *Ctx) {
 				if fn := callee(in, x); fn != nil && distributors[fn] && len(x.Args) > 0 {
 					parked, at = x.Args[0], x
 				}
-			case *ast.RangeStmt:
-				if sl, ok := in.TypeOf(x.X).Underlying().(*types.Slice); ok && isReplyChan(sl.Elem()) && f.Obj != nil && !distributors[f.Obj] {
-					parked, at = x.X, x
-				} else if ok && isReplyChan(sl.Elem()) && f.Obj == nil {
-					parked, at = x.X, x
+			case *ast.RangeStmt, *ast.ForStmt:
+				if pl, ok := loopOf[x.(ast.Stmt)]; ok && !(f.Obj != nil && distributors[f.Obj]) {
+					parked, at = pl.Slice, x
 				}
 			}
 			if parked == nil {
@@ -830,6 +1049,17 @@ func ruleR5(c *Ctx) {
 					}
 					return true
 				})
+			}
+		}
+	}
+	// type-assertion idioms in the owner's loop function count as handlers too
+	for _, h := range msgHandlers(p, isIMessage) {
+		if h.Switch != nil {
+			continue
+		}
+		for _, b := range boxes {
+			if b.loopFn == h.Func && len(h.Types) == 1 {
+				b.handled[typeString(h.Types[0])] = true
 			}
 		}
 	}
